@@ -36,8 +36,10 @@ CHECKS.update({
                   "measured on real ciphertext with real keys, every recorded execution validated by TLC (OnionTrace.tla)",
         text="TLC checks ExitIntegrity, ReturnIntegrity, LayerDepth, NoRepeatOnLinks on the spec exhaustively (3 hops, 1 attack "
              "step; 1-2 hops, 2 steps in thorough) and on every recorded execution of the real nodes, including runs that alter "
-             "every header byte and sampled (thorough: every) body byte of in-flight cells on every link in both directions.",
-        note="AEAD/HKDF/X25519 idealised (Dolev-Yao); PythonCryptoEndpoint only; e2e circuits and test cells not driven."),
+             "every header byte and sampled (thorough: every) body byte of in-flight cells on every link in both directions, the exit "
+             "socket's queue while its outside sockets open, and linked hidden-service (e2e) circuits with cells forged by the rendezvous point.",
+        note="AEAD/HKDF/X25519 idealised (Dolev-Yao); PythonCryptoEndpoint only; for e2e circuits the rendezvous link and the shared "
+             "key are set up by the harness on the real tables (create-e2e/link-e2e handshake not driven); test cells not driven."),
     "C06": dict(
         category="model_checking", design_ref="DESIGN.md section 4, C06",
         technique="TLA+ specs ExitClassifier.tla / ExitPolicy.tla model-checked by TLC; TLC enumerates header-byte domains and "
